@@ -53,8 +53,10 @@ func (f *factory) ToRESTMapper() (meta.RESTMapper, error) { return f.mapper, nil
 func withCRDKind(base meta.RESTMapper) meta.RESTMapper {
 	gvk := kindByName("CustomResourceDefinition").GVK
 	b1, b2 := kindByResource("bazs"), kindByResource("obazs")
-	m := meta.NewDefaultRESTMapper([]schema.GroupVersion{gvk.GroupVersion(), b1.GVK.GroupVersion(), b2.GVK.GroupVersion()})
+	as := kindByResource("apiservices")
+	m := meta.NewDefaultRESTMapper([]schema.GroupVersion{gvk.GroupVersion(), b1.GVK.GroupVersion(), b2.GVK.GroupVersion(), as.GVK.GroupVersion()})
 	m.Add(gvk, meta.RESTScopeRoot)
+	m.AddSpecific(as.GVK, as.GVR(), as.GVK.GroupVersion().WithResource("apiservice"), meta.RESTScopeRoot)
 	m.AddSpecific(b1.GVK, b1.GVR(), b1.GVK.GroupVersion().WithResource("baz"), meta.RESTScopeNamespace)
 	m.AddSpecific(b2.GVK, b2.GVR(), b2.GVK.GroupVersion().WithResource("obaz"), meta.RESTScopeNamespace)
 	return meta.FirstHitRESTMapper{MultiRESTMapper: meta.MultiRESTMapper{base, m}}
